@@ -16,7 +16,7 @@ import (
 
 func (s *Scenario) observe() {
 	w := s.w
-	arr := w.Consume()
+	arr := append(w.takeEarly(), w.Consume()...)
 	if len(arr) == 0 {
 		return
 	}
